@@ -2,7 +2,7 @@
     flow is lost, waits are repeatable, and there is one cease-process-set trace.
     Model: Model/ProcSet.v — watchers, wait group, run loop and closer of process_set.go as an LTS over
     any number of initial processes, any set of throwers, any schedule. *)
-From BV Require Import Model.ProcSet Proofs.ProcSetProofs.
+From BV Require Import Model.ProcSet Proofs.ProcSetProofs Gen.Facts.
 Open Scope nat_scope.
 
 (* SAFETY — in every reachable state of the repaired protocol in which WaitUntilComplete can return
@@ -56,6 +56,24 @@ Theorem C18_safety_refuted_before_fix_early_completion :
     sstep pinned_throw s SRunThrow = Some s' /\ closed s' = true /\ existsb (fun p => negb (finished p)) (procs s') = true.
 Proof. exact refuted_early_completion. Qed.
 Print Assumptions C18_safety_refuted_before_fix_early_completion.
+
+(* "WAKES THE REFERENCED CATCH EVENT, EXACTLY ONCE PER THROW": the catch event announces that it listens, the set's watcher
+   reads the announcement some time later, throws come whenever they come. Handed to the process directly -- the variant
+   the sources show since /repo 656cb12 (src_wake_is_direct) -- every throw made while the catch event listens wakes it
+   exactly once and no other throw wakes anything, for every order of announcements, readings and throws ... *)
+Theorem C18_every_throw_at_a_listening_catch_event_wakes_it : forall ls,
+  wwoken (wrun (negb src_wake_is_direct) ls) = wexpected false ls.
+Proof. exact direct_wake_exact. Qed.
+Print Assumptions C18_every_throw_at_a_listening_catch_event_wakes_it.
+
+(* ... through a table that the watcher fills when it reads the announcement (the pinned code): the throw is handled
+   before the reading, the message is lost although the catch event listens (reproduced on the implementation under
+   load before the repair) *)
+Theorem C18_wake_refuted_through_the_table :
+  wwoken (wrun true [WListen; WThrow; WRegister]) = 0 /\ wexpected false [WListen; WThrow; WRegister] = 1 /\
+  wwoken (wrun true [WListen; WRegister; WThrow]) = 1.
+Proof. exact refuted_wake_through_the_table. Qed.
+Print Assumptions C18_wake_refuted_through_the_table.
 
 Example C18_nonvacuous :
   exists s, sexec fixedcfg (sinit fixedcfg [true; false])
